@@ -379,13 +379,8 @@ fn run_schedule(run_id: usize, sch: &Value, dir: &str, trace: &mut Trace, strict
     let mut anchors_missed = 0usize;
     let mut steps_done = 0usize;
     let steps = sch["steps"].as_array().unwrap();
-    // the last Pause / Resume command the driver has issued (commands are idempotent: it alone decides the mode)
-    let mut last_pr = String::new();
     for (k, st) in steps.iter().enumerate() {
         let d = gets(st, "do");
-        if d == "Cmd" && gets(st, "x") != "Stop" {
-            last_pr = gets(st, "x").to_string();
-        }
         let mut q = false;
         let mut pe = false; // paused for the whole step
         let disp_before = prev.dispatched.len();
@@ -400,9 +395,6 @@ fn run_schedule(run_id: usize, sch: &Value, dir: &str, trace: &mut Trace, strict
                         let inner = &x["step"];
                         if gets(inner, "do") == "Cmd" && gets(inner, "x") == "Resume" {
                             resume_seen = true;
-                        }
-                        if gets(inner, "do") == "Cmd" && gets(inner, "x") != "Stop" {
-                            last_pr = gets(inner, "x").to_string();
                         }
                         note_env(&mut run, inner);
                         if let Some(act) = parse_act(inner) {
@@ -554,7 +546,7 @@ fn run_schedule(run_id: usize, sch: &Value, dir: &str, trace: &mut Trace, strict
         // iteration when the yield point was never reached)
         let adv_in_iter = st.get("anchored").and_then(|a| a.as_array()).map(|a| a.iter().any(|x| x["step"]["do"] == "Advance")).unwrap_or(false);
         let mut rec = json!({"ev": "step", "run": run_id, "k": k, "do": d, "q": q, "advInIter": adv_in_iter,
-            "iterRan": d == "Iter" && run.sim.last_iter.0, "lastPR": last_pr,
+            "iterRan": d == "Iter" && run.sim.last_iter.0, "lastPR": s.last_pr,
             "pe": pe && d == "Iter", "pausedDispatch": paused_dispatch, "ndisp": ndisp, "st": run.project(&s),
             "polled": polled_workers, "prevStop": prev_stop, "prevTotal": prev_total, "prevLive": prev_live, "replyNow": reply_now,
             "prevWstate": prev.wstate, "prevSstatus": prev.sstatus,
